@@ -521,7 +521,7 @@ class Replayer:
         except (Crash, common.MachineryError):
             raise
         except Exception as e:   # noqa
-            if lab[0] == 'write':
+            if lab[0] in ('write', 'writenf'):
                 # the record may or may not have reached the file; the monitor learns about the events seen so far
                 self.mon.after_write(self.nrec, lab[2], self.w.events)
             return {'ret': None, 'exc': e, 'cells': [], 'events': self.w.events, 'fatal': True}
@@ -531,7 +531,10 @@ class Replayer:
         w = self.w
         w.events = []
         out = {'ret': None, 'exc': None, 'cells': [], 'events': w.events}
-        if a == 'write':
+        if a == 'flush':
+            self.objs[W].flush()
+        elif a in ('write', 'writenf'):
+            kw = {'flush': False} if a == 'writenf' else {}
             self.nrec += 1
             val = w.codec.value(self.nrec, x)
             prev = max([self.ts_of_name(lf.path) for lf in self.objs[W].logfiles], default=0)
@@ -539,12 +542,12 @@ class Replayer:
                 tsf = w.ts_of(y - 100) + 5e-7
                 if int(tsf * 1_000_000) != w.us_of(y - 100) or tsf == w.ts_of(y - 100):
                     raise common.MachineryError('cannot render a sub-microsecond fraction')
-                n = self.objs[W].write(val, tsf)
+                n = self.objs[W].write(val, tsf, **kw)
                 self.mon.frac_seen = True
             elif y:
-                n = self.objs[W].write(val, w.ts_of(y))
+                n = self.objs[W].write(val, w.ts_of(y), **kw)
             else:
-                n = self.objs[W].write(val)
+                n = self.objs[W].write(val, **kw)
             out['ret'] = n
             if self.bump_binding:
                 for e in w.events:
